@@ -491,6 +491,47 @@ func ReachesAssuming(from, target ssa.Instruction, assume map[ssa.Value]bool) bo
 	return reachAssuming(from.Block(), false, target, assume)
 }
 
+// ReachableFromEntryAssumingAvoiding: is there a feasible path from the entry
+// to target, under the assumptions, on which no instruction satisfying avoid
+// executes before target?
+func ReachableFromEntryAssumingAvoiding(target ssa.Instruction, assume map[ssa.Value]bool, avoid func(ssa.Instruction) bool) bool {
+	fn := target.Parent()
+	if fn == nil || len(fn.Blocks) == 0 {
+		return false
+	}
+	old := assumed
+	assumed = assume
+	defer func() { assumed = old }()
+	type st struct{ b, pred *ssa.BasicBlock }
+	seen := map[st]bool{}
+	stack := []st{{fn.Blocks[0], nil}}
+	for len(stack) > 0 {
+		x := stack[len(stack)-1]
+		stack = stack[:len(stack)-1]
+		blocked := false
+		for _, in := range x.b.Instrs {
+			if in == target {
+				return true
+			}
+			if avoid(in) {
+				blocked = true
+				break
+			}
+		}
+		if blocked {
+			continue
+		}
+		for _, t := range feasibleSuccsAssuming(x.b, x.pred) {
+			n := st{t, x.b}
+			if !seen[n] {
+				seen[n] = true
+				stack = append(stack, n)
+			}
+		}
+	}
+	return false
+}
+
 func reachAssuming(start *ssa.BasicBlock, includeStart bool, target ssa.Instruction, assume map[ssa.Value]bool) bool {
 	old := assumed
 	assumed = assume
@@ -556,6 +597,21 @@ func blockLocalLoad(v ssa.Value) ssa.Value {
 	if !ok {
 		return nil
 	}
+	// can anything but this function's own loads and stores touch the variable?
+	private := true
+	if refs := a.Referrers(); refs != nil {
+		for _, ref := range *refs {
+			switch x := ref.(type) {
+			case *ssa.Store:
+				if x.Val == ssa.Value(a) {
+					private = false // its address is stored somewhere
+				}
+			case *ssa.UnOp:
+			default:
+				private = false // bound by a closure, passed to a call, ...
+			}
+		}
+	}
 	b := ld.Block()
 	idx := InstrIndex(ld)
 	for i := idx - 1; i >= 0; i-- {
@@ -565,7 +621,13 @@ func blockLocalLoad(v ssa.Value) ssa.Value {
 				return x.Val
 			}
 		case ssa.CallInstruction:
-			return nil
+			if !private {
+				return nil
+			}
+		case *ssa.RunDefers:
+			if !private {
+				return nil
+			}
 		}
 	}
 	return nil
@@ -614,4 +676,16 @@ func LiveEdge(pred, b *ssa.BasicBlock) bool {
 		}
 	}
 	return false
+}
+
+// BlockLocalLoad is blockLocalLoad for the rules (v itself when it is not such a load).
+func BlockLocalLoad(v ssa.Value) ssa.Value {
+	for i := 0; i < 3; i++ {
+		lv := blockLocalLoad(v)
+		if lv == nil {
+			return v
+		}
+		v = lv
+	}
+	return v
 }
